@@ -59,7 +59,22 @@ def corpora(ctx, work):
         long = "\n".join(lines) + "\n"
     stats["expansion_not_zic_equivalent_dropped"] = bad
     out.append(("real2025b", long, stats))
+    # a small hand-written source exercising the name-related filters: two zone names that normalise to the same C++
+    # identifier, a link to the one that gets removed, a link to a surviving zone, a zone without '/' in its name
+    out.append(("names", NAMES_SOURCE, {}))
     return out
+
+
+NAMES_SOURCE = (
+    "Rule\tPN\t1990\tmax\t-\tMar\tlastSun\t2:00\t1:00\tD\n"
+    "Rule\tPN\t1990\tmax\t-\tOct\tlastSun\t3:00\t0\tS\n"
+    "Zone\tTest/New-Town\t2:07\t-\tLMT\t1985\n\t\t\t2:00\tPN\tE%sT\n"
+    "Zone\tTest/New_Town\t-5:07\t-\tLMT\t1985\n\t\t\t-5:00\t-\tEST\n"
+    "Zone\tTest/Other\t1:07\t-\tLMT\t1985\n\t\t\t1:00\tPN\tC%sT\n"
+    "Zone\tNOSLASH\t3:07\t-\tLMT\t1985\n\t\t\t3:00\t-\tMSK\n"
+    "Link\tTest/New_Town\tTest/Newtown\n"
+    "Link\tTest/Other\tTest/Alias\n"
+    "Link\tTest/New-Town\tTest/NewTownAlias\n")
 
 
 def check_compiled(ctx, label, src, scope, work, thorough, nt, start_year=2000, until_year=2050):
